@@ -93,7 +93,7 @@ def burst(rnd, raw, start, length):
     return o
 
 
-def cases(tier, seed):
+def cases_plain(tier, seed):
     rnd = random.Random(seed)
     cs = []
     quick = tier == "quick"
@@ -191,3 +191,19 @@ def cases(tier, seed):
 
 def nontrivial(case, lines):
     return any("v=" in l and "v=accept" not in l for l in lines)
+
+
+def cases(tier, seed):
+    """cases_plain, plus every fourth case once more with the replies going into a chunk-style sink that takes three
+    octets per call (rp.sinkmode): what is answered must not depend on how the sink takes it"""
+    cs = cases_plain(tier, seed)
+    extra = []
+    for i, c in enumerate(cs):
+        if i % 4 == 0 and c.ops and c.ops[0].startswith("rp.cfg"):
+            ops = []
+            for op in c.ops:
+                ops.append(op)
+                if op.startswith("rp.cfg"):
+                    ops.append("rp.sinkmode chunk:3")
+            extra.append(Case(c.cid + "-chunk3", ops, tuple(c.tags) + ("chunk-sink",)))
+    return cs + extra
